@@ -412,8 +412,13 @@ def eqDefaultCheck (O : Oracles) : SrcEntry → R Unit
     else asCheck (validate O d eq.value)
   | _ => okU
 
+def distinctStr : List String → Bool
+  | [] => true
+  | x :: xs => !xs.contains x && distinctStr xs
+
+/-- `type.__new__`: "duplicate base class" / "Cannot create a consistent method resolution order" -/
 def mroCheck (w : World) (src : ClassSrc) : R Unit :=
-  if (mroOf w src).isSome then okU else .error .typeErr
+  if distinctStr src.bases && (mroOf w src).isSome then okU else .error .typeErr
 
 def unknownBaseCheck (w : World) (src : ClassSrc) : R Unit :=
   if src.bases.all (fun b => (w.find b).isSome) && (baseDefs w src).any (·.isStruct) then okU
